@@ -2,6 +2,7 @@ import SlotVerif.Model.Node
 import SlotVerif.Proofs.ListAux
 import SlotVerif.Proofs.Shape
 import SlotVerif.Proofs.ShapeIdem
+import SlotVerif.Proofs.Syntax
 /-!
 # C16 — Node shapes are canonical modulo renaming; derived Language impls are coherent
 
@@ -11,7 +12,9 @@ shape law `weakShape_rename` — **the shape of a node does not change when all 
 (free and bound alike) are renamed injectively**, for every node of every language, by a simulation
 argument over the weak-shape state (`Proofs/Shape.lean`).  So free renaming and alpha-renaming of
 binders both leave the shape — the hashcons key — unchanged.  `weakShape_idem`: **the shape of a shape is the shape itself**
-(`Proofs/ShapeIdem.lean`).  `weakShape_apply` and the syntax round-trip are listed as pending in the evidence and are covered by the
+(`Proofs/ShapeIdem.lean`).  `fromSyntax_toSyntax` / `fromSyntax_toSyntax_payload`: **`from_syntax(to_syntax(n)) = n`** for
+every well-typed node of every signature (`Proofs/Syntax.lean`; the generated first-fitting-prefix loop
+finds exactly each field's own syntax).  `weakShape_apply` and the converse of `weakShape_rename` are listed as pending in the evidence and are covered by the
 correspondence check and the harness-side predicates only.
 -/
 namespace SV.Node.C16
@@ -200,5 +203,35 @@ def exShadow : Node := { v := 0, fields := [.slot 8, .bind 8 (.app { id := 3, m 
 example : (Node.weakShape exShadow).1 =
     { v := 0, fields := [.slot 0, .bind 4 (.app { id := 3, m := [(0, 4), (4, 8)] }), .slot 0] } := by decide
 example : (Node.weakShape (Node.weakShape exShadow).1).1 = (Node.weakShape exShadow).1 := by decide
+
+
+/-- **`from_syntax ∘ to_syntax = id`** for a variant with an operator string: fields of the kinds the variant
+declares (payloads reading back as themselves), and no earlier variant with the same operator string -/
+theorem fromSyntax_toSyntax (sig : Sig) (n : Node) (vr : Variant) (name : String)
+    (hv : sig[n.v]? = some vr) (hn : vr.name = some name) (hk : Syntax.HasKinds n.fields vr.kinds)
+    (hfirst : ∀ j, j < n.v → (sig[j]?.bind (·.name)) ≠ some name) :
+    fromSyntax sig (Node.toSyntax sig n) = some n :=
+  Syntax.fromSyntax_toSyntax_named sig n vr name hv hn hk hfirst
+
+/-- … and for a payload variant whose printed payload is unambiguous (not an operator string, not accepted
+by an earlier payload variant) -/
+theorem fromSyntax_toSyntax_payload (sig : Sig) (n : Node) (vr : Variant) (ty v : String) (ks : List Kind)
+    (hv : sig[n.v]? = some vr) (hn : vr.name = none) (hkinds : vr.kinds = .lit ty :: ks)
+    (hf : n.fields = [.lit v]) (hparse : parseLit ty v = some v)
+    (hnoop : ∀ j, j < sig.length → (sig[j]?.bind (·.name)) ≠ some v)
+    (hearlier : ∀ j, j < n.v → ∀ vr', sig[j]? = some vr' → vr'.name = none →
+      ∀ k ks', vr'.kinds = k :: ks' → Kind.fromSyntax k [.str v] = none) :
+    fromSyntax sig (Node.toSyntax sig n) = some n :=
+  Syntax.fromSyntax_toSyntax_payload sig n vr ty v ks hv hn hkinds hf hparse hnoop hearlier
+
+/-- non-vacuity: `(let $x <body> <value>)` in a two-variant signature -/
+def exSig : Sig := [⟨some "var", [.slot]⟩, ⟨some "let", [.bind .app, .app]⟩]
+def exLet : Node := { v := 1, fields := [.bind 8 (.app { id := 1, m := [] }), .app { id := 2, m := [] }] }
+example : fromSyntax exSig (Node.toSyntax exSig exLet) = some exLet := by
+  apply fromSyntax_toSyntax exSig exLet ⟨some "let", [.bind .app, .app]⟩ "let" rfl rfl
+  · exact .cons (.bind 8 (.app _)) (.cons (.app _) .nil)
+  · intro j hj
+    have : j = 0 := by simp [exLet] at hj; omega
+    subst this; decide
 
 end SV.Node.C16
